@@ -734,6 +734,9 @@ func c17Regain(tier string, seed int64, idx int, scratch string) rt.CaseResult {
 	var c rt.CaseResult
 	rng := seqrun.Rng(seed, "C17r", idx)
 	nroots := 1 + idx%2
+	if idx%6 == 4 {
+		nroots = 9 // many roots: more directories registered at once than any small bound
+	}
 	eff := 100
 	eo := dbx.Options{Mode: dbx.Inline, Dir: filepath.Join(scratch, "db"), Roots: nroots, MaxDirCount: 100, MaxDirExplicit: true}
 	if idx%3 == 2 {
